@@ -197,3 +197,23 @@ pub enum OptionalSuffix {
     #[regex("x+y?", priority = 20)]
     Xy,
 }
+
+// ---- one callback function shared by several variants and by a skip definition (round-8 seed C13-n): the glue code of
+// each leaf must construct that leaf's own variant, whatever the callback's name ----
+fn shared_unit<'s>(_lex: &mut Lexer<'s, SharedLabel<'s>>) {}
+fn shared_slice<'s>(lex: &mut Lexer<'s, SharedLabel<'s>>) -> &'s str {
+    lex.slice()
+}
+
+#[derive(Logos)]
+#[logos(skip(r"#[a-z]*", shared_unit))]
+pub enum SharedLabel<'s> {
+    #[token("+", shared_unit)]
+    Plus,
+    #[token("-", shared_unit)]
+    Minus,
+    #[regex("[a-z]+", shared_slice)]
+    Lower(&'s str),
+    #[regex("[A-Z]+", shared_slice)]
+    Upper(&'s str),
+}
